@@ -13,6 +13,7 @@ import json
 import os
 import random
 import sys
+import time
 
 from harness import common
 
@@ -211,9 +212,13 @@ def gen_ast(rng, depth, width):
 
 
 def gen_deep(rng, depth):
+    """a chain of `depth` nested containers.  At most 10 of the levels are mappings: the implementation's `==` on
+    nested DictNodes costs about 2^(mapping depth) (HashableCounter equality), 40 levels would not terminate."""
     node = gen_scalar(rng)
-    for _ in range(depth):
-        if rng.random() < 0.5:
+    levels = ['obj'] * min(10, depth // 2) + ['arr'] * (depth - min(10, depth // 2))
+    rng.shuffle(levels)
+    for kind in levels:
+        if kind == 'arr':
             node = ('arr', [node] + ([gen_scalar(rng)] if rng.random() < 0.3 else []))
         else:
             node = ('obj', [(gen_string(rng, 2), node)] + ([('zz', gen_scalar(rng))] if rng.random() < 0.3 else []))
@@ -465,7 +470,9 @@ def run_items(run, wd, items, st, tag):
     """Drive the implementation, evaluate the Gallina verdicts. Returns a dict of results."""
     for i, it in enumerate(items):
         it['dir'] = os.path.join(wd.path, f'{tag}{i % 64}')
+    t0 = time.time()
     res = common.run_impl('pC12', 'impl_roundtrip', items, extra_env={'PYTHONUTF8': '1'})
+    t1 = time.time()
     keep, terms, skipped, internal = [], [], 0, []
     for it, r in zip(items, res):
         if 'ok' not in r:
@@ -484,7 +491,9 @@ def run_items(run, wd, items, st, tag):
     if st['models_ok']:
         evals.append('bad_cases corr_C12')
         header += MODEL_HEADER
-    bad, err = common.coq_eval_cases(wd, 'cases_' + tag, header, terms, evals, chunk=150)
+    chunk = max(20, -(-len(terms) // (2 * common.NPROC)))
+    bad, err = common.coq_eval_cases(wd, 'cases_' + tag, header, terms, evals, chunk=chunk)
+    common.log(f'C12 {tag}: {len(items)} items, implementation {t1 - t0:.1f}s, Coq evaluation {time.time() - t1:.1f}s')
     out = {'keep': keep, 'skipped': skipped, 'internal': internal, 'err': err,
            'bad_holds': [], 'out_domain': [], 'kf': {k: set() for k in KF_CLASSES}, 'bad_corr': []}
     if not err:
